@@ -22,7 +22,7 @@ struct Case {
 fn extension_spellings() -> Vec<&'static str> {
     vec![
         ".json", ".JSON", ".Json", ".jSoN", ".yaml", ".YAML", ".yml", ".YML", ".Yml", ".toml", ".TOML", ".tOmL", ".msgpack", ".MSGPACK", ".MsgPack", ".txt", ".jsn", ".yaml.json", ".json.yaml", ".tar.toml", ".json.", ".json.bak",
-        "", ".msgpack.yml", ".yaml~", ".JSON5",
+        "", ".msgpack.yml", ".yaml~", ".JSON5", ".j", ".m", ".t", ".y", ".Y", ".J", ".ym", ".jso", ".tom", ".msgpac", ".yamll",
     ]
 }
 
@@ -74,8 +74,23 @@ fn case_strategy() -> BoxedStrategy<Case> {
                     args.push(name);
                 }
                 4 => {
-                    // stdin only (no file arguments); the generated content arrives on stdin
-                    return Case { inv: Invocation { args, files, stdin: bytes, out: OutKind::Pipe, bin: if dbg { Bin::Debug } else { Bin::Release } }, note };
+                    // stdin only (no file arguments); the generated content arrives on stdin:
+                    // through a pipe, or redirected from a regular file whose offset is 0 or
+                    // already past a first line ("{ read line; xt; } < file")
+                    let (stdin, off) = match stem.len() % 3 {
+                        0 => (bytes, None),
+                        1 => (bytes, Some(0)),
+                        _ => {
+                            let mut b = b"skipped first line\n".to_vec();
+                            let n = b.len();
+                            b.extend(bytes);
+                            (b, Some(n))
+                        }
+                    };
+                    if off.is_some() && stem.len() % 2 == 0 {
+                        args.extend(["-".to_string(), "-".to_string()]);
+                    }
+                    return Case { inv: Invocation { args, files, stdin, out: OutKind::Pipe, bin: if dbg { Bin::Debug } else { Bin::Release }, stdin_file_offset: off }, note };
                 }
                 5 => {
                     // '-' before / after a file
@@ -100,7 +115,7 @@ fn case_strategy() -> BoxedStrategy<Case> {
                     args.extend(["second.json".to_string(), name]);
                 }
             }
-            Case { inv: Invocation { args, files, stdin, out: OutKind::Pipe, bin: if dbg { Bin::Debug } else { Bin::Release } }, note }
+            Case { inv: Invocation { args, files, stdin, out: OutKind::Pipe, bin: if dbg { Bin::Debug } else { Bin::Release }, stdin_file_offset: None }, note }
         })
         .boxed()
 }
@@ -145,6 +160,9 @@ fn check_case(c: &Case, rec: &mut Recorder) -> Result<(), String> {
     if inv.args.iter().any(|a| a.starts_with("-f")) {
         rec.class("resolution:-f_given");
     }
+    if inv.stdin_file_offset.is_some() {
+        rec.class("input:stdin_redirected_from_file");
+    }
     if inv.args.iter().filter(|a| *a == "-").count() >= 2 {
         rec.class("stdin_twice");
     } else if inv.args.iter().any(|a| a == "-") || inv.files.is_empty() {
@@ -168,7 +186,7 @@ impl Check for C14 {
         "exploration"
     }
     fn rule(&self) -> String {
-        "Generated invocations of the real binaries: {-f absent, each format name and alias} x file names built from stems and every extension spelling in several letter cases, multi-dot names, no extension, hidden-file names, misleading extensions x content (valid 1..3-document streams of each format from the spelling writers, multi-format-valid texts, invalid content) x input kind (regular file [memory-mapped], empty file, FIFO, standard input alone, '-' before/after files, '-' twice, directory) x all targets. Oracle: reference resolution -f > extension (Rust Path::extension, ASCII-lower-cased, table from the manual) > detection, then stdout must equal what the in-process library produces for the same bytes with the resolved format in the matching supply mode (slice for mapped files, reader otherwise); a second use of stdin => exit 1 after the earlier inputs were translated. One evaluation = one process run; every case is non-trivial; distinct by hash of the invocation.".into()
+        "Generated invocations of the real binaries: {-f absent, each format name and alias} x file names built from stems and every extension spelling in several letter cases, multi-dot names, no extension, hidden-file names, misleading extensions x content (valid 1..3-document streams of each format from the spelling writers, multi-format-valid texts, invalid content) x input kind (regular file [memory-mapped], empty file, FIFO, standard input alone - piped, or redirected from a regular file at offset 0 or past a first line -, '-' before/after files, '-' twice, directory) x all targets. Oracle: reference resolution -f > extension (Rust Path::extension, ASCII-lower-cased, table from the manual) > detection, then stdout must equal what the in-process library produces for the same bytes with the resolved format in the matching supply mode (slice for mapped files, reader otherwise); a second use of stdin => exit 1 after the earlier inputs were translated. One evaluation = one process run; every case is non-trivial; distinct by hash of the invocation.".into()
     }
     fn assumptions(&self) -> Vec<String> {
         vec!["the reference output comes from in-process library calls (C01-C03 vouch for those)".into()]
@@ -180,7 +198,7 @@ impl Check for C14 {
         vec![Unit::gen("resolve", 16, tier.pick(1200, 10_000))]
     }
     fn required_classes(&self, _tier: Tier) -> Vec<&'static str> {
-        vec!["resolution:by_extension", "resolution:by_detection_or_f", "resolution:-f_given", "extension:mixed_case", "input:fifo", "input:stdin", "input:directory", "stdin_twice", "outcome:ok", "outcome:failed", "content:valid_stream", "content:invalid"]
+        vec!["resolution:by_extension", "resolution:by_detection_or_f", "resolution:-f_given", "extension:mixed_case", "input:fifo", "input:stdin", "input:stdin_redirected_from_file", "input:directory", "stdin_twice", "outcome:ok", "outcome:failed", "content:valid_stream", "content:invalid"]
     }
     fn run_unit(&self, unit: &Unit, _shard: u32, seed: u64, _tier: Tier, rec: &mut Recorder) {
         run_prop(rec, seed, unit.cases, case_strategy(), |c| c.inv.to_json("resolve"), check_case);
